@@ -1,5 +1,73 @@
+"""C04 extras: the "safe fallbacks (0, '1.4') for unusable ones" clause at the attribute level.
+
+Through the pump the validator already rejects unusable battery / heartbeat / version payloads,
+so the fallbacks are only reachable through the public attribute setters (controller code, and a
+persistence file written by another version of the library): symbolic text is assigned to each
+setter and the stored value is compared with the clause."""
+from symex.run import Harness
+
+from . import common as C
+
 VERSIONS = None
+
+VERSION_TEXTS = ["1.4", "2.0", "2.2.0", "2.3", "1.3", "0.9", "1.10", "", "abc", "one.two", "2"]
+
+
+def fallback_version(text):
+    parts = text.split(".")
+    if not parts or not all(p.isascii() and p.isdigit() for p in parts) or len(parts) > 3:
+        return "1.4"
+    nums = [int(p) for p in parts] + [0, 0]
+    return text if (nums[0], nums[1]) >= (1, 4) else "1.4"
+
+
+def try_int(w, text):
+    """(ok, value) of int(text) under Python's rules, via the engine's own model."""
+    try:
+        return True, w.call(int, text)
+    except ValueError:
+        return False, 0
+
+
+def attribute_fallbacks():
+    def fn(w):
+        from mysensors.sensor import Sensor
+        attr = w.pick(["battery_level", "heartbeat", "protocol_version"], "attribute")
+        env = C.make_env(w)
+        with env.installed():
+            s = w.new(Sensor, 1)
+            if attr == "protocol_version":
+                text = w.pick(VERSION_TEXTS, "text")
+            else:
+                text = w.fresh_str("text", 3)
+            w.info = {"attribute": attr, "text": text}
+            try:
+                w.set(s, attr, text)
+            except Exception as exc:
+                w.escaped(exc, f"assigning {attr} raised")
+            got = w.get(s, attr)
+            if attr == "protocol_version":
+                w.check(got == fallback_version(text),
+                        f"protocol_version after assigning {text!r} is {got!r}")
+                w.goal("version")
+                return
+            ok, val = try_int(w, text)
+            if attr == "battery_level":
+                usable = ok and w.is_true(w.and_(w.le(0, val), w.le(val, 100)))
+            else:
+                usable = ok
+            if usable:
+                w.check(w.eq(got, val), f"{attr}: a usable value was not stored")
+                w.goal("stored")
+            else:
+                w.check(w.eq(got, 0), f"{attr}: an unusable value did not fall back to 0")
+                w.goal("fallback")
+    return fn
 
 
 def harnesses(tier):
-    return []
+    return [Harness("attribute-fallbacks", attribute_fallbacks(),
+                    {"attributes": ["battery_level", "heartbeat", "protocol_version"],
+                     "text": "any text <= 3 code points (version: a grid of 11 strings)"},
+                    goals=["stored", "fallback", "version"],
+                    doc="setters keep usable values and fall back to 0 / '1.4' otherwise")]
